@@ -26,8 +26,8 @@ PLAN["C02"] = dict(
     ],
     require={"steps": 1000},
     jobs=lambda t: [
-        J("seq", "native", ["c02", "--sequences", q(t, 250, 6000)], shards=16, budget_s=q(t, 25, 420)),
-        J("seq-asan", "asan", ["c02", "--sequences", q(t, 40, 600)], shards=q(t, 8, 16), budget_s=q(t, 20, 300)),
+        J("seq", "native", ["c02", "--sequences", q(t, 700, 8000)], shards=16, budget_s=q(t, 40, 600)),
+        J("seq-asan", "asan", ["c02", "--sequences", q(t, 80, 800)], shards=q(t, 8, 16), budget_s=q(t, 30, 400)),
     ],
 )
 
@@ -42,7 +42,7 @@ PLAN["C03"] = dict(
     jobs=lambda t: [
         J("bulk", "native", ["c03", "--part", "bulk"], shards=8, budget_s=q(t, 20, 120)),
         J("bulk-asan", "asan", ["c03", "--part", "bulk"], shards=8, budget_s=q(t, 30, 180)),
-        J("held", "native", ["c03", "--part", "held", "--rounds", q(t, 150, 4000)], shards=8, budget_s=q(t, 30, 500), parallel=8),
+        J("held", "native", ["c03", "--part", "held", "--rounds", q(t, 500, 5000)], shards=8, budget_s=q(t, 35, 700), parallel=8),
         J("held-asan", "asan", ["c03", "--part", "held", "--rounds", q(t, 60, 2000)], shards=8, budget_s=q(t, 40, 500), parallel=8),
     ] + miri_jobs_late(["list-mix4", "tree-samebin-mix4", "split-trees"], q(t, 4, 96), q(t, 1, 12)),
 )
@@ -57,8 +57,8 @@ PLAN["C01"] = dict(
     ],
     require={"key_histories_checked": 500, "contended_key_histories": 20, "rounds_with_resize": 5, "rounds_with_tree_conversion": 5},
     jobs=lambda t: [
-        J("freerun", "native", ["c01", "--rounds", q(t, 220, 5000)], shards=q(t, 8, 12), budget_s=q(t, 30, 600), parallel=q(t, 8, 12)),
-        J("serial", "native", ["c01", "--part", "serial", "--schedules", q(t, 1500, 60000)], shards=q(t, 8, 16), budget_s=q(t, 30, 600), parallel=q(t, 8, 16)),
+        J("freerun", "native", ["c01", "--rounds", q(t, 1200, 8000)], shards=q(t, 8, 12), budget_s=q(t, 35, 900), parallel=q(t, 8, 12)),
+        J("serial", "native", ["c01", "--part", "serial", "--schedules", q(t, 6000, 120000)], shards=q(t, 8, 16), budget_s=q(t, 30, 600), parallel=q(t, 8, 16)),
     ],
 )
 
@@ -69,7 +69,7 @@ PLAN["C04"] = dict(
     require={"instances_created": 1000, "drops_before_teardown": 100, "path_treeify": 1, "path_list_split": 1},
     miri_classes=["leak", "ub"],
     jobs=lambda t: [
-        J("ledger", "native", ["c04", "--rounds", q(t, 200, 5000)], shards=q(t, 8, 12), budget_s=q(t, 30, 600), parallel=q(t, 8, 12)),
+        J("ledger", "native", ["c04", "--rounds", q(t, 1500, 8000)], shards=q(t, 8, 12), budget_s=q(t, 35, 900), parallel=q(t, 8, 12)),
     ] + miri_jobs_late(["list-mix4", "tree-samebin-mix4", "tree-grow-from-0"], q(t, 4, 96), q(t, 1, 12)),
 )
 
@@ -79,7 +79,7 @@ PLAN["C05"] = dict(
     assumptions=["audits run only when every worker thread has been joined"],
     require={"quiescent_points_audited": 100, "points_after_multi_thread_resize": 3, "tree_bins_audited": 3},
     jobs=lambda t: [
-        J("quiescent", "native", ["c05", "--rounds", q(t, 220, 5000)], shards=q(t, 8, 12), budget_s=q(t, 30, 600), parallel=q(t, 8, 12)),
+        J("quiescent", "native", ["c05", "--rounds", q(t, 2500, 10000)], shards=q(t, 8, 12), budget_s=q(t, 35, 900), parallel=q(t, 8, 12)),
     ],
 )
 
@@ -110,7 +110,7 @@ PLAN["C10"] = dict(
     assumptions=["resize events are emitted by hooks at points ordered before the next generation can begin"],
     require={"stamp_lengths": 31, "orch_generations_multi_helper": 5, "generations": 50, "generations_multi_helper": 3, "ladder_runs": 6, "ladder_growths": 30},
     jobs=lambda t: [
-        J("resize", "native", ["c10", "--rounds", q(t, 120, 4000)], shards=q(t, 8, 12), budget_s=q(t, 30, 600), parallel=q(t, 8, 12)),
+        J("resize", "native", ["c10", "--rounds", q(t, 700, 6000)], shards=q(t, 8, 12), budget_s=q(t, 40, 900), parallel=q(t, 8, 12)),
     ],
 )
 
@@ -152,7 +152,7 @@ PLAN["C07"] = dict(
     assumptions=["stability of a key is decided only from definite real-time facts of the recorded history"],
     require={"lockstep_iterators_that_crossed_tables": 5, "stable_keys_verified": 1000, "freerun_rounds_iterating_across_resize": 5, "remover_stopped_with_empty_tree_bin": 1},
     jobs=lambda t: [
-        J("iter", "native", ["c07", "--rounds", q(t, 120, 4000)], shards=q(t, 8, 12), budget_s=q(t, 30, 600), parallel=q(t, 8, 12)),
+        J("iter", "native", ["c07", "--rounds", q(t, 800, 6000)], shards=q(t, 8, 12), budget_s=q(t, 40, 900), parallel=q(t, 8, 12)),
         J("tree-last-node", "native", ["c07", "--part", "tree-last-node"], shards=1, budget_s=20),
     ],
 )
@@ -163,7 +163,7 @@ PLAN["C08"] = dict(
     assumptions=["a probe in which the competitor had not started or only reads is counted as missed, never as a violation"],
     require={"probes_competitor_observed_blocked_until_closure_returned": 20, "increments_conserved": 1000, "rmw_calls_whose_closure_ran": 500},
     jobs=lambda t: [
-        J("rmw", "native", ["c08", "--rounds", q(t, 120, 4000)], shards=q(t, 8, 12), budget_s=q(t, 40, 600), parallel=q(t, 8, 12)),
+        J("rmw", "native", ["c08", "--rounds", q(t, 1000, 6000)], shards=q(t, 8, 12), budget_s=q(t, 45, 900), parallel=q(t, 8, 12)),
     ],
 )
 
@@ -177,7 +177,8 @@ PLAN["C12"] = dict(
     require={"suspension_points": 5000, "scenarios": 20, "third_party_writer_parked_behind_reader": 1},
     jobs=lambda t: [
         J("suspend", "native", ["c12"], shards=8, budget_s=q(t, 60, 300), parallel=8),
-    ] + ([J("suspend-asan", "asan", ["c12"], shards=8, budget_s=300, parallel=8)] if t == "thorough" else []),
+        J("suspend-asan", "asan", ["c12"], shards=8, budget_s=q(t, 90, 400), parallel=8),
+    ],
 )
 
 PLAN["C13"] = dict(
@@ -186,7 +187,7 @@ PLAN["C13"] = dict(
     assumptions=["a race in which the predicate never saw the key or the writer did not run is inconclusive"],
     require={"races_completed_between_inspection_and_removal": 100, "retain_rejections_checked": 50, "retain_force_rejections_checked": 50, "sequential_retain_cases": 500},
     jobs=lambda t: [
-        J("retain", "native", ["c13", "--rounds", q(t, 150, 5000)], shards=q(t, 8, 12), budget_s=q(t, 30, 600), parallel=q(t, 8, 12)),
+        J("retain", "native", ["c13", "--rounds", q(t, 3000, 12000)], shards=q(t, 8, 12), budget_s=q(t, 35, 900), parallel=q(t, 8, 12)),
     ],
 )
 
@@ -222,7 +223,7 @@ PLAN["C11"] = dict(
     require_prefix={"miri_seeds_": 8},
     jobs=lambda t: miri_jobs(["tree-mix3", "tree-readers", "init-race", "grow"], q(t, 12, 256), q(t, 4, 16))
     + miri_jobs(["tree-samebin-mix4", "tree-grow-from-0", "list-mix4"], q(t, 4, 128), q(t, 1, 16))
-    + [J("serial", "native", ["c11", "--schedules", q(t, 1500, 60000)], shards=q(t, 8, 16), budget_s=q(t, 30, 600), parallel=q(t, 8, 16))]
+    + [J("serial", "native", ["c11", "--schedules", q(t, 6000, 120000)], shards=q(t, 8, 16), budget_s=q(t, 30, 600), parallel=q(t, 8, 16))]
     + [J("f6-regression-seed16", "miri", LIT["tree-mix3"], shards=1, seeds=(16, 17), budget_s=90, absolute_seeds=True),
        J("f6-regression-seed131", "miri", LIT["tree-mix3"], shards=1, seeds=(131, 132), budget_s=90, absolute_seeds=True)],
 )
